@@ -17,6 +17,7 @@ import Xandikos.Generated.IterChanges
 import Xandikos.Generated.Gates
 import Xandikos.Generated.Multiget
 import Xandikos.Generated.FindKeys
+import Xandikos.Generated.StoreGate
 import Xandikos.Driver.Codec
 
 open Xandikos Xandikos.Codec
@@ -69,6 +70,13 @@ def countersOf (s : String) : Map Nat :=
     | [k, n] => m.insert (pctDecode k) (n.toNat?.getD 0)
     | _ => m) ∅
 
+/-- `uid:name:etag,…` -/
+def u2fOf (s : String) : Map (String × String) :=
+  if s == "-" then ∅ else (s.splitOn ",").foldl (fun m it =>
+    match it.splitOn ":" with
+    | [u, n, e] => m.insert (pctDecode u) (pctDecode n, pctDecode e)
+    | _ => m) ∅
+
 def gstep (line : String) : String :=
   match words line with
   | ["etag", h, cur] => bb (Generated.etag_matches (fieldS h).toList ((field cur).map String.toList))
@@ -118,6 +126,17 @@ def gstep (line : String) : String :=
     let cnt := ",".intercalate ((keysAll.filter fun k => (d[k]?).isSome).map fun k => pctEncode k ++ ":" ++ toString ((d[k]?).getD 0))
     "res=" ++ (match res with | some l => showL l | none => "~") ++ " reset=" ++
       (match reset with | some l => showL l | none => "~") ++ " desired=" ++ cnt
+  | ["cd", kind, u2f, cur, uid, name, replace] =>
+    let f := if kind == "vdir" then Generated.vdir_check_duplicate else Generated.git_check_duplicate
+    (match f true (u2fOf u2f) (field cur) (field uid) (fieldS name) (field replace) with
+     | .ok e => "ok " ++ encO e
+     | .error (.raised cls _) => "raise:" ++ cls)
+  | ["fu", kind, u2f, name, uid, probe] =>
+    let f := if kind == "vdir" then Generated.vdir_forget_uid else Generated.git_forget_uid
+    let m := f (u2fOf u2f) (fieldS name) (field uid)
+    -- observed through lookups of the probed UIDs
+    "=" ++ ",".intercalate ((itemsOf probe).map fun u =>
+      pctEncode u ++ ":" ++ (match m[u]? with | some (n, e) => pctEncode n ++ ":" ++ pctEncode e | none => "~:~"))
   | ["match", a, b, k] => exc (Generated.match_ (fieldS a).toList (fieldS b).toList (fieldS k).toList)
   | ["collate", name, a, b, k] =>
     match Generated.collations.find? (fun r => r.1 == (fieldS name).toList) with
